@@ -11,7 +11,7 @@ use crate::GDErrorKind::{HostLookup, InvalidInput, PacketReceive, PacketSend, Pr
 use crate::{GDResult, TimeoutSettings};
 
 use std::io::Read;
-use std::net::{SocketAddr, SocketAddrV4, SocketAddrV6, ToSocketAddrs};
+use std::net::{IpAddr, SocketAddr, SocketAddrV4, SocketAddrV6, ToSocketAddrs};
 
 use ureq::{Agent, AgentBuilder, Request};
 use url::{Host, Url};
@@ -164,7 +164,13 @@ impl HttpClient {
         let host = http_settings
             .hostname
             .map(S::into)
-            .unwrap_or_else(|| address.ip().to_string());
+            .unwrap_or_else(|| {
+                match address.ip() {
+                    // an IPv6 literal is bracketed in the host part of a URL
+                    IpAddr::V6(ip) => format!("[{ip}]"),
+                    ip => ip.to_string(),
+                }
+            });
 
         Ok(Self {
             client,
